@@ -97,9 +97,12 @@ fn feed_chunked(w: &mut World, mut bytes: Vec<u8>, chunk: u16) {
     w.tick();
     if AMBIENT.with(|a| a.get().1) && w.ctx_running() {
         // run() is serving: more packets arrive in the same read (they address no subscription)
+        // (two of them QoS 2, unless the client's own CONNECT asked for Receive Maximum 1)
+        let tiny = AMBIENT.with(|a| a.get().0) & 48 == 48;
         for k in 0..8u8 {
+            let qos = if !tiny && (k == 2 || k == 5) { 2 } else { 0 };
             bytes.extend(rc::encode(
-                &rc::Packet::Publish(rc::Publish { qos: 0, topic: format!("companion/{k}"), payload: vec![k; 24], ..Default::default() }),
+                &rc::Packet::Publish(rc::Publish { qos, pid: (qos > 0).then_some(0x6000 + k as u16), topic: format!("companion/{k}"), payload: vec![k; 24], ..Default::default() }),
                 &rc::Form::canonical(),
             ));
         }
@@ -626,7 +629,7 @@ impl Property for C02 {
         )
             .prop_map(|(input, form, chunk)| Case { input, form, chunk, ambient: 0 })
             .boxed();
-        (s, prop_oneof![2 => Just(0u8), 1 => 0u8..64, 1 => (0u8..64).prop_map(|v| v | 128), 1 => (0u8..16).prop_map(|v| v | 48 | 128)])
+        (s, prop_oneof![2 => Just(0u8), 1 => 0u8..128, 1 => (0u8..128).prop_map(|v| v | 128), 1 => (0u8..16).prop_map(|v| v | 48 | 128)])
             .prop_map(|(mut c, a)| {
                 c.ambient = a;
                 c
